@@ -23,7 +23,7 @@ def run(ctx):
                 'lists with repeated and missing disciplines for the sorter; distinct = distinct codes / pairs / lists; non-trivial = accepted codes')
     ctx.trusted += ['tools/gen_regex.py (patterns, groups, FIELD_SORT_ORDER) validated each run against re.match group spans']
     ctx.assumptions += ['get_distance values for non-integral quantities (1.5K, yards) are compared as "a value, within 1 of the exact floor": int(1000*float) truncates in binary',
-                        'AgeGrader.event_code_to_kind raises ValueError by design for codes outside its four kinds (relays, multi-events, duration races): observed, not demanded']
+                        'AgeGrader.event_code_to_kind raises ValueError for codes outside its four kinds (relays, multi-events, duration races): recorded as the known finding C10-kind-classifier-raises (it had been filed here as observed, not demanded)']
     g = gen.regex(ctx, ['PAT_EVENT_CODE', 'PAT_RELAYS', 'PAT_THROWS', 'PAT_JUMPS', 'PAT_HURDLES', 'PAT_TRACK', 'PAT_RACES_FOR_DISTANCE'])
     if g is None: return
     side, alpha, trees, mod, changed = g
